@@ -44,6 +44,7 @@ structure Inst where
   running : Bool := false          -- started and no stop call since
   everStopped : Bool := false      -- a stop call has been made since the last Start
   ctxNil : Bool := true            -- e.ctx == nil: never started, or a StopWithContext completed
+  ctxCancelled : Bool := false     -- the caller's context of the current run has been cancelled (no stop call): nothing runs, a leader steps down
   startFailed : Bool := false      -- the last Start failed half-way (connection monitor): a cancelled context is installed and `stopped` is reset
   flag : Bool := false
   termTok : Nat := 0
@@ -85,7 +86,7 @@ def stepTrans (x : Inst) (f t : Nat) : R Inst :=
     else if x.flag then reject s!"instance {x.id}: promotion while already leading"
     else pure { x with state := 2, pendingFlag := some true }
   else if t = 3 then
-    if ¬ x.running then reject s!"instance {x.id}: transition to FOLLOWER while not running"
+    if ¬ x.running ∧ ¬ (x.ctxCancelled ∧ x.flag) then reject s!"instance {x.id}: transition to FOLLOWER while not running"
     else pure { x with state := 3, pendingFlag := some false }
   else if t = 5 then
     if x.stops.isEmpty then reject s!"instance {x.id}: transition to STOPPED outside a stop call"
@@ -106,7 +107,7 @@ def stepFlag (x : Inst) (b il : Bool) (tok lid : Nat) : R Inst :=
   | none =>
     -- becomeFollower after a stop: no transition is recorded, only the gauge is refreshed
     if il then reject s!"instance {x.id}: flag raised outside becomeLeader"
-    else if x.flag ∧ x.running then reject s!"instance {x.id}: flag cleared without a recorded transition"
+    else if x.flag ∧ (x.running ∨ x.ctxCancelled) then reject s!"instance {x.id}: flag cleared without a recorded transition"
     else pure (clearFlag x)
 
 def stepPromote (x : Inst) (tok cid : Nat) (dn : Bool) : R Inst :=
@@ -183,15 +184,25 @@ def step (s : Sys) (te : TEv) : R Sys :=
         if x.ctxNil then
           pure { s with calls := (n, i, k) :: s.calls }       -- will return ErrAlreadyStopped
         else
-          let x' := { x with stops := { n := n, wasLeader := x.flag } :: x.stops, running := false, everStopped := true, stopPendingTrans := true, startFailed := false }
+          let x' := { x with stops := { n := n, wasLeader := x.flag } :: x.stops, running := false, everStopped := true, stopPendingTrans := true, startFailed := false, ctxCancelled := false }
           pure { s with st := s.st.set x', calls := (n, i, k) :: s.calls }
       | .stopctx _ _ _ _ =>
         if (x.everStopped ∧ ¬ x.startFailed) ∨ x.ctxNil then
           pure { s with calls := (n, i, k) :: s.calls }       -- will return ErrAlreadyStopped
         else
-          let x' := { x with stops := { n := n, wasLeader := x.flag } :: x.stops, running := false, everStopped := true, stopPendingTrans := true, startFailed := false }
+          let x' := { x with stops := { n := n, wasLeader := x.flag } :: x.stops, running := false, everStopped := true, stopPendingTrans := true, startFailed := false, ctxCancelled := false }
           pure { s with st := s.st.set x', calls := (n, i, k) :: s.calls }
       | _ => pure { s with calls := (n, i, k) :: s.calls }
+  | .cancelCtx i =>
+    -- the application cancels the context it passed to Start: every goroutine of the run winds down; a leader steps down
+    match s.st.get i with
+    | none => pure s
+    | some x =>
+      if x.pendingFlag.isSome then reject s!"instance {i}: context cancelled inside a critical section"
+      else if x.running then
+        -- (the promotion contexts are children of the cancelled one: the application itself has ended them)
+        pure { s with st := s.st.set { x with running := false, ctxCancelled := true, ctxs := x.ctxs.map fun c => { c with termOver := true } } }
+      else pure s
   | .apiRet n i r =>
     match s.calls.find? (·.1 = n), s.st.get i with
     | some (_, _, k), some x =>
@@ -200,7 +211,7 @@ def step (s : Sys) (te : TEv) : R Sys :=
       | .start, .ok =>
         if x.running then reject s!"instance {i}: Start succeeded while running"
         else if x.flag ∨ x.pendingFlag.isSome ∨ x.stopPendingTrans then reject s!"instance {i}: Start succeeded inside a critical section / while leading"
-        else pure { s1 with st := s1.st.set { x with running := true, everStopped := false, ctxNil := false, state := 1 } }
+        else pure { s1 with st := s1.st.set { x with running := true, everStopped := false, ctxNil := false, ctxCancelled := false, state := 1 } }
       | .start, .err =>
         -- Start failed after installing (and cancelling) a new context and resetting `stopped` (the connection monitor
         -- refused to start again): the election does not run, but the next stop call goes through a full shutdown
